@@ -145,6 +145,8 @@ pub enum From {
     Cross(Box<From>, Box<From>),
     Inner(Box<From>, Box<From>, E),
     Left(Box<From>, Box<From>, E),
+    Right(Box<From>, Box<From>, E),
+    Full(Box<From>, Box<From>, E),
 }
 
 #[derive(Clone, Debug)]
@@ -183,11 +185,58 @@ fn none() -> Sx {
     Sx::a("none")
 }
 
+thread_local! {
+    /// render column references without the table qualifier (only safe when no subquery reads a
+    /// table of its outer FROM clause: see `Query::unqualified_safe`)
+    pub static UNQUALIFIED: std::cell::Cell<bool> = std::cell::Cell::new(false);
+}
+
+fn qname(table: &str, col: &str) -> String {
+    if UNQUALIFIED.with(|u| u.get()) { col.to_string() } else { format!("{}.{}", table, col) }
+}
+
+impl Pred {
+    pub fn sub_tables(&self, out: &mut Vec<usize>) {
+        match self {
+            Pred::Ex(_) => {}
+            Pred::InSub(_, s, _) | Pred::Exists(s, _) | Pred::CmpSub(_, _, s) => out.push(s.tbl),
+            Pred::And(a, b) | Pred::Or(a, b) => {
+                a.sub_tables(out);
+                b.sub_tables(out);
+            }
+            Pred::Not(a) => a.sub_tables(out),
+        }
+    }
+}
+
+impl Query {
+    /// unqualified rendering keeps the meaning iff no subquery reads a table of its outer FROM
+    pub fn unqualified_safe(&self) -> bool {
+        match self {
+            Query::Core(c) => {
+                let (mut ft, mut st) = (vec![], vec![]);
+                c.from.tables(&mut ft);
+                if let Some(w) = &c.where_ {
+                    w.sub_tables(&mut st);
+                }
+                st.iter().all(|t| !ft.contains(t))
+            }
+            Query::SetOp(_, _, l, r) => l.unqualified_safe() && r.unqualified_safe(),
+        }
+    }
+    pub fn sql_unqualified(&self, db: &DbDef) -> String {
+        UNQUALIFIED.with(|u| u.set(true));
+        let s = self.sql(db);
+        UNQUALIFIED.with(|u| u.set(false));
+        s
+    }
+}
+
 impl From {
     pub fn tables(&self, out: &mut Vec<usize>) {
         match self {
             From::Table(i) => out.push(*i),
-            From::Cross(l, r) | From::Inner(l, r, _) | From::Left(l, r, _) => {
+            From::Cross(l, r) | From::Inner(l, r, _) | From::Left(l, r, _) | From::Right(l, r, _) | From::Full(l, r, _) => {
                 l.tables(out);
                 r.tables(out);
             }
@@ -201,7 +250,7 @@ impl From {
         ts.iter()
             .flat_map(|t| {
                 let tn = db.tables[*t].schema.table.clone();
-                db.tables[*t].schema.cols.iter().map(move |c| format!("{}.{}", tn, c.0))
+                db.tables[*t].schema.cols.iter().map(move |c| qname(&tn, &c.0))
             })
             .collect()
     }
@@ -220,6 +269,12 @@ impl From {
             From::Left(l, r, on) => {
                 format!("{} LEFT JOIN {} ON {}", l.sql(db), r.sql(db), on.sql(&self.names(db)))
             }
+            From::Right(l, r, on) => {
+                format!("{} RIGHT JOIN {} ON {}", l.sql(db), r.sql(db), on.sql(&self.names(db)))
+            }
+            From::Full(l, r, on) => {
+                format!("{} FULL OUTER JOIN {} ON {}", l.sql(db), r.sql(db), on.sql(&self.names(db)))
+            }
         }
     }
     pub fn sx(&self) -> Sx {
@@ -228,6 +283,8 @@ impl From {
             From::Cross(l, r) => Sx::List(vec![Sx::a("cross"), l.sx(), r.sx()]),
             From::Inner(l, r, e) => Sx::List(vec![Sx::a("inner"), l.sx(), r.sx(), e.sx()]),
             From::Left(l, r, e) => Sx::List(vec![Sx::a("left"), l.sx(), r.sx(), e.sx()]),
+            From::Right(l, r, e) => Sx::List(vec![Sx::a("right"), l.sx(), r.sx(), e.sx()]),
+            From::Full(l, r, e) => Sx::List(vec![Sx::a("full"), l.sx(), r.sx(), e.sx()]),
         }
     }
 }
@@ -237,7 +294,7 @@ impl SubQ {
     pub fn sql(&self, db: &DbDef, outer: &[String]) -> String {
         let t = &db.tables[self.tbl].schema;
         let mut names: Vec<String> = outer.to_vec();
-        names.extend(t.cols.iter().map(|c| format!("{}.{}", t.table, c.0)));
+        names.extend(t.cols.iter().map(|c| qname(&t.table, &c.0)));
         let out = match &self.out {
             SubOut::Col(e) => e.sql(&names),
             SubOut::Agg(a) => a.sql(&names),
@@ -447,6 +504,8 @@ impl Query {
                     From::Cross(..) => out.push("from_comma_join"),
                     From::Inner(..) => out.push("from_inner_join"),
                     From::Left(..) => out.push("from_left_join"),
+                    From::Right(..) => out.push("from_right_join"),
+                    From::Full(..) => out.push("from_full_join"),
                 }
                 if let Some(w) = &c.where_ {
                     out.push("where");
@@ -522,7 +581,7 @@ pub struct QGen<'a> {
 impl<'a> QGen<'a> {
     fn gen_from(&self, r: &mut Rng) -> From {
         let n = self.db.tables.len();
-        let k = r.below(10);
+        let k = r.below(12);
         if n < 2 || k < 5 {
             return From::Table(r.below(n as u64 - if n > 2 { 1 } else { 0 }) as usize);
         }
@@ -552,7 +611,9 @@ impl<'a> QGen<'a> {
         match k {
             5 | 6 => f,
             7 | 8 => From::Inner(l, rr, on),
-            _ => From::Left(l, rr, on),
+            9 => From::Left(l, rr, on),
+            10 => From::Right(l, rr, on),
+            _ => if r.chance(1, 2) { From::Full(l, rr, on) } else { From::Left(l, rr, on) },
         }
     }
 
